@@ -11,6 +11,13 @@ GROW = ["ins:1,ins:2,ins:3|ins:4,ins:5,era:1|find:3,ins:6,era:4;trav,size", "ins
 
 def run(ctx):
     q = ctx.quick()
+    # Tier B: SplitList.tla (split-order keys, lazy bucket initialisation parent first, slot published after linking, table growth) over an abstract ordered
+    # list; an operation starting at a bucket's dummy must see the key's place.  Refuted: seeded change C27, early publication, no parent initialisation
+    vlib.model_check_many(ctx, [dict(module_rel="set/SplitListMC.tla", cfg_rel="set/SplitList_q.cfg", workers=2),
+                                dict(module_rel="set/SplitListMC.tla", cfg_rel="set/SplitList_bad_RegularPlusOne.cfg", workers=2, expect_violation="Parity"),
+                                dict(module_rel="set/SplitListMC.tla", cfg_rel="set/SplitList_bad_PublishEarly.cfg", workers=2, expect_violation="LinOK"),
+                                dict(module_rel="set/SplitListMC.tla", cfg_rel="set/SplitList_bad_NoParentInit.cfg", workers=4, expect_violation="LinOK")] +
+                               ([] if q else [dict(module_rel="set/SplitListMC.tla", cfg_rel="set/SplitList_q3.cfg", workers=8, timeout=3000)]), par=4)
     n = 0 if q else 8
     deep = [("dfs", 1500 if q else 300000, 2 if q else 3)]
     ps = SC.PROGRAMS + GROW + [SC.gen_program(ctx.rng, SC.VOC_FULL, keys=4) for _ in range(n)]
